@@ -157,8 +157,8 @@ impl Parser {
                     let nil_key = key_type.is_optional().0 && !map_type.key_type().is_optional().0;
 
                     if nil_key
-                        || !key_type.eq_complex(
-                            map_type.key_type(),
+                        || !map_type.key_type().eq_complex(
+                            &key_type,
                             &TypecheckFlags::use_class(maybe_class_type.as_ref()),
                         )
                     {
@@ -174,8 +174,8 @@ impl Parser {
                         value_type.is_optional().0 && !map_type.value_type().is_optional().0;
 
                     if nil_value
-                        || !value_type.eq_complex(
-                            map_type.value_type(),
+                        || !map_type.value_type().eq_complex(
+                            &value_type,
                             &TypecheckFlags::use_class(maybe_class_type.as_ref()),
                         )
                     {
